@@ -398,3 +398,58 @@ def update_parameters_contract():
                   statement="on success classes_by_reference[ref_path] is the Parameter parameter_from_data built from this "
                             "component (pre: ref_path not yet registered); on failure a ParameterError", props=["C20"])]
     return FnContract(f"{P}.schemas:update_parameters_with_data", [Case("any", make, cls, raises=(), props=["C20"])])
+
+
+def update_schemas_contract():
+    """C07/C20: a component schema that parses is registered under its reference path (the object property_from_data
+    returned); one that does not yields a PropertyError whose header names the component reference"""
+    E = _errors()
+
+    def make(I):
+        from openapi_python_client.parser.properties import schemas as S
+        built = SOpaque("built property", cls=object)
+        fails = I.branch_free()
+        err = SObj(E.PropertyError, {"detail": SStr(z3.Const("detail", z3.StringSort())), "header": SStr(z3.Const("header", z3.StringSort())),
+                                     "data": None, "level": None})
+        schemas2 = SObj(S.Schemas, {"classes_by_reference": LazyMap("cbr", lambda I2, k: SOpaque("an earlier class")),
+                                    "classes_by_name": SOpaque("cbn"), "dependencies": SOpaque("deps"), "models_to_process": SList(),
+                                    "errors": SList()})
+        calls = []
+
+        def pfd(I2, a, k):
+            calls.append(k)
+            return STuple([err if fails else built, schemas2])
+        I.contracts[f"{P}:property_from_data"] = pfd
+        ref = SStr(z3.Const("ref_path", z3.StringSort()))
+        data = SOpaque("data")
+        schemas = SObj(S.Schemas, {"classes_by_reference": SOpaque("cbr0"), "classes_by_name": SOpaque("cbn0"),
+                                   "dependencies": SOpaque("deps0"), "models_to_process": SList(), "errors": SList()})
+        return SFunc("pyfunc", S.update_schemas_with_data), [], {"ref_path": ref, "data": data, "schemas": schemas,
+                                                                "config": SOpaque("config")}, {
+            "fails": fails, "built": built, "ref": ref, "S": S, "calls": calls, "data": data, "err": err}
+
+    def registered(ctx):
+        i, I = ctx.inputs, ctx.I
+        v = ctx.value
+        if len(i["calls"]) != 1 or i["calls"][0]["data"] is not i["data"]:
+            return False
+        if i["fails"]:
+            if v is not i["err"]:
+                return False
+            # the diagnostic identifies the component
+            return z3.Contains(I.to_str_term(v.fields["header"]), i["ref"].t)
+        if not (isinstance(v, SObj) and v.cls is i["S"].Schemas):
+            return False
+        cbr = v.fields["classes_by_reference"]
+        if not isinstance(cbr, LazyMap):
+            return False
+        hits = [val for k, val in cbr.entries if I.must(I.to_str_term(k) == i["ref"].t)]
+        if len(hits) == 1 and hits[0] is not i["built"] and getattr(hits[0], "name", "") == "an earlier class":
+            return True        # pre-condition of the callers: a reference path is registered at most once
+        return len(hits) >= 1 and hits[0] is i["built"]
+
+    cls = [Clause("registered-or-named-in-the-diagnostic", registered,
+                  statement="the component's own data is parsed once; on success classes_by_reference[ref_path] is the property "
+                            "built from it (pre: not yet registered); on failure the PropertyError's header contains the reference "
+                            "path", props=["C07", "C20"])]
+    return FnContract(f"{P}.schemas:update_schemas_with_data", [Case("any", make, cls, raises=(), props=["C07", "C20"])])
